@@ -326,8 +326,14 @@ class ModelEval:
             elif k == "F":
                 cache[n.id] = False
             elif k == "v":
-                z = z3.Bool(n.payload) if isinstance(n.payload, str) else n.payload
-                cache[n.id] = bool(z3.is_true(model.eval(z, model_completion=True)))
+                if n.defn is not None:
+                    if n.defn.id not in cache:
+                        stack.append(n.defn)
+                        continue
+                    cache[n.id] = cache[n.defn.id]
+                else:
+                    z = z3.Bool(n.payload) if isinstance(n.payload, str) else n.payload
+                    cache[n.id] = bool(z3.is_true(model.eval(z, model_completion=True)))
             else:
                 pend = [a for a in n.args if a.id not in cache]
                 if pend:
@@ -397,6 +403,8 @@ class VM:
         self.profile = None
         self.model_pool = []
         self.npool_hits = 0
+        self.named = {}
+        self.name_threshold = 48
         self.access_log = None  # Engine B: list of field accesses for the lockset analysis
         from . import natives
         natives.install(self)
@@ -409,6 +417,18 @@ class VM:
         self.solver.add(to_z3(b))
         # models found before this assumption stay usable only if they satisfy it
         self.model_pool = [m for m in self.model_pool if m.holds(b)]
+
+    def name_guard(self, g: B) -> B:
+        """replace a large guard by a definitional variable (Tseitin-style), keeping queries small"""
+        hit = self.named.get(g.id)
+        if hit is not None:
+            return hit[0]
+        v = fresh("d")
+        v.defn = g
+        self.solver.add(to_z3(v) == to_z3(g))
+        self.named[g.id] = (v, g)
+        self.defs.append((v, g))
+        return v
 
     def feasible(self, g: B) -> bool:
         if g is FALSE:
@@ -440,7 +460,7 @@ class VM:
         ok = r != z3.unsat
         if r == z3.sat:
             self.model_pool.insert(0, ModelEval(self.solver.model(), len(self.assumptions)))
-            del self.model_pool[24:]
+            del self.model_pool[6:]
         self.solver.pop()
         self.feas[g.id] = (ok, g)
         return ok
@@ -575,6 +595,8 @@ class VM:
         if s.held != other.held:
             s.held = tuple(h for h in s.held if h in other.held)
         s.guard = OR(g, other.guard)
+        if s.guard.sz > self.name_threshold:
+            s.guard = self.name_guard(s.guard)
         s.compute_prio()
         pending[k] = s
 
@@ -818,6 +840,12 @@ class VM:
         kwargs = kwargs or {}
         t = type(fn)
         if t is Union:
+            fn = self.project(s, fn)
+            if type(fn) is Union and all(self._plain_native(x) for _, x in fn.alts):
+                from . import natives
+                r = natives.call_native(self, s, fn, list(args), kwargs)
+                self.deliver(s, r, on_return)
+                return JUMPED
             fn = self.project(s, fn, True)
             if type(fn) is Union:
                 return self.fork_union(s, fn, lambda s2, x: self.do_call(s2, x, args, kwargs, on_return))
@@ -867,6 +895,26 @@ class VM:
         r = natives.call_native(self, s, fn, list(args), kwargs)
         self.deliver(s, r, on_return)
         return JUMPED
+
+    def _plain_native(self, fn):
+        """a callable that would be executed natively (no model, not interpreted)"""
+        t = type(fn)
+        if isinstance(fn, (VObj, Sym)) or fn is None:
+            return False
+        if self.model_for(fn) is not None:
+            return False
+        if t is types.BuiltinFunctionType or t is types.BuiltinMethodType or t.__name__ in (
+                "method_descriptor", "method-wrapper"):
+            return True
+        if t is types.MethodType:
+            f0 = fn.__func__
+            if isinstance(fn.__self__, VObj):
+                return False
+            return not (isinstance(f0, types.FunctionType) and self.is_encoded_module(f0.__module__))
+        if t is types.FunctionType:
+            return not (self.is_encoded_module(fn.__module__) or self.is_encoded_module(
+                fn.__globals__.get("__name__")))
+        return False
 
     def push_call(self, s, vf, args, kwargs, on_return):
         if len(s.frames) >= self.max_depth:
